@@ -199,6 +199,11 @@ def explore(ctx, n_wf, n_near, n_raw, n_esc, corpus_lines=()):
             s = str(m)
         except (AssertionError, ircmsgs.MalformedIrcMsg):
             return
+        except Exception as e:
+            cases.append(Case({'op': 'construct', 'prefix': pfx, 'command': cmd, 'args': list(args), 'tags': tags},
+                              oracle_ok=False, kind=kind, tags=('construct-crash',),
+                              oracle_msg='IrcMsg(prefix=%r, command=%r, ...) raised %s: %s' % (pfx, cmd, type(e).__name__, e)))
+            return
         c = Case({'op': 'format', 'prefix': pfx, 'command': cmd, 'args': list(args), 'tags': tags},
                  impl=wire.enc(s), kind=kind, tags=('format', 'nargs%d' % min(len(args), 3)) + (('ftags',) if tags else ()))
         # property oracle (theorem parse_format on the implementation): whenever the Lean predicate
